@@ -11,7 +11,7 @@ for f in sorted(glob.glob('/verif/evidence/C??.json')):
     for res in c['self_validation']['results']:
         for v in res.get('violations',[]):
             hit[v.split('|')[0]].add(res['seed'])
-    for res in c.get('rule_controls',{}).get('results',[]):
+    for res in (c.get('rule_controls',{}).get('results') or []):
         if res.get('result')=='reported by the rule':
             hit[res['rule']].add('rulectl:'+res['control'])
 un=[r for r in rules if not hit[r]]
